@@ -229,6 +229,10 @@ fn edge_cases() -> Vec<Case> {
     v.push(op("malformed import", "#import from\nquery { hello }"));
     v.push(op("spread of an undefined fragment", "query { user(id: 1) { ...Missing } }"));
     v.push(op("fragment cycle", "query { user(id: 1) { ...A } }\nfragment A on User { ...B }\nfragment B on User { ...A }"));
+    v.push(op("subscription spreading a two-fragment cycle", "subscription { ...F }\nfragment F on Subscription { ticks ...G }\nfragment G on Subscription { ticks ...F }"));
+    v.push(op("subscription spreading a three-fragment cycle through an inline fragment", "subscription S { ... { ...A } }\nfragment A on Subscription { ...B }\nfragment B on Subscription { ... on Subscription { ...C } }\nfragment C on Subscription { ticks ...A }"));
+    v.push(op("mutation and query spreading fragment cycles", "query Q { user(id: 1) { ...A } }\nmutation M { rename(id: 1, to: \"x\") { ...B } }\nfragment A on User { posts { author { ...B } } }\nfragment B on User { id ...A }"));
+    v.push(op("cycle not containing the first spread fragment", "query { user(id: 1) { ...A } }\nfragment A on User { ...B }\nfragment B on User { ...C }\nfragment C on User { ...B id }"));
     v.push(op("self-referential fragment", "fragment A on User { ...A }"));
     v.push(op("unused fragment selecting an unknown field", "fragment A on User { nope }"));
     v.push(op("unused fragment with a wrong argument", "query { hello }\nfragment A on Query { hello(times: \"s\", nope: 1) }"));
